@@ -195,6 +195,8 @@ pub struct KTransport {
     pub config: [u8; 64],
     pub config_len: usize,
     pub generation: u32,
+    /// like PciTransport, `queue_unset` may be unable to disable a queue: then only a reset quiesces the device
+    pub unset_noop: bool,
 }
 
 impl KTransport {
@@ -209,6 +211,7 @@ impl KTransport {
             config: [0; 64],
             config_len: 64,
             generation: 0,
+            unset_noop: false,
         }
     }
 }
@@ -235,7 +238,7 @@ impl Transport for KTransport {
         log_push(Ev::QueueSet(q, size, d, a, u));
     }
     fn queue_unset(&mut self, q: u16) {
-        unsafe { if (q as usize) < MAX_Q { LIVE.q_enabled[q as usize] = false; } }
+        unsafe { if (q as usize) < MAX_Q && !self.unset_noop { LIVE.q_enabled[q as usize] = false; } }
         log_push(Ev::QueueUnset(q));
     }
     fn queue_used(&mut self, q: u16) -> bool { log_push(Ev::QueueUsed(q)); self.queue_used }
